@@ -1,10 +1,10 @@
-\* every node list (0-1 bias, 0-2 inputs, 1-2 outputs, 0-1 hidden) with 0-2 traits, trait pointers free, one plain gene
+\* every node list (0-1 bias, 0-2 inputs, 1-2 outputs, 0-1 hidden) with 0-1 traits, trait pointers nil or set, one plain gene
 SPECIFICATION Spec
 CONSTANTS
   PopStartNewline = TRUE
   Modes = {"genome"}
   MinTraits = 0
-  MaxTraits = 2
+  MaxTraits = 1
   Pats = {1}
   BiasCounts = {0, 1}
   MinInputs = 0
